@@ -32,7 +32,7 @@ import (
 func TestMain(m *testing.M) {
 	harness.Describe(
 		"one case = one decode tree (TestGenerated: a generated decoder over the public decode API producing uint/sint/big int/float/string/bool/null/raw-bit/JSON-array/JSON-object scalars with and without symbolic value, description and display format, nested in structs and arrays, field names issued in sorted order; TestCorpus: a sample file of fq's own test corpus decoded with its format, formats sampled evenly; TestOrder: generated decoders whose struct fields are NOT in sorted order) + up to 8 values of the tree + up to 6 queries per value drawn from a typed read-only jq grammar (about 350 atoms over type/length/keys/has/index/slice/iterate/paths/getpath/comparison/sort/group/unique/arithmetic/string and regex functions/@formats/tojson/tostring/to_entries/from_entries/destructuring/reduce/foreach/limit/first, the value used as the input and as an argument, composed by pipe, array and object construction, binary operators, if, try, `as`, and higher-order calls map/sort_by/group_by/any/all/select/paths(f)). Each (value, query) pair is evaluated as `v | q` and `v | tovalue | q` in one jq evaluation per case. Non-trivial: the case has a pair whose query has >= 2 operators and whose value is compound or has a symbolic value; distinct = hash of tree source + picked paths + query texts.",
-		"queries never mention `_`-prefixed keys; a string key is looked up only on values known to be objects or in the guarded form `if type == \"object\" then .[k] else null end` (documented: string-key lookup on a non-object decode value yields null)",
+		"queries mention a `_`-prefixed key only when the value itself has a member of that name (own-underscore-keys probe: such a key is not an 'extra' key); a string key is looked up only on values known to be objects or in the guarded form `if type == \"object\" then .[k] else null end` (documented: string-key lookup on a non-object decode value yields null)",
 		"generated structs have unique field names in sorted order, so the documented input-order iteration cannot differ from the sorted order of the JSON object and results are compared exactly; values whose subtree holds a struct with unsorted or repeated names (corpus, TestOrder) get only order-independent queries (navigate/select/collect/type tests) and their results are compared as multisets",
 		"generated raw fields hold valid UTF-8; values whose subtree holds a raw field that is not valid UTF-8 (corpus) get only queries that pass strings through without looking at their content",
 		"error messages are not compared, only that an error was raised at the same point of the output sequence; a number is the same JSON number whether it is held as int, big int or integral float",
